@@ -24,7 +24,9 @@ package main
 //   dflt     65536 (sc_dflt)
 //   entries  id;isdir;rel;content;md5;z;sizes;profit;steps;prefinal  joined by ","  (see m_transfer.ml)
 //   tags     one letter per message, both directions merged in recording order
-//   canonical  S=|R=|SN=|RN=|NEW=|SHAPE=|TREE=|C2S=<typed messages>|S2C=<typed messages>|ORDER=
+//   canonical  S=|R=|SN=|RN=|NEW=|SHAPE=|TREE=|C2S=<typed messages>|S2C=<typed messages>|ORDER=|SPEC=
+//     SPEC = what tr_spec (a function of the entries alone) says: the name per entry; the
+//     deduplicated names; 1 = its final file system is the one the two machines produced
 
 import (
 	"bytes"
@@ -1217,7 +1219,7 @@ func (tc *c01tCase) run(work string, idx int) {
 		sn, rn = exitNames, serverNames
 	}
 	tc.impl = fmt.Sprintf("S=1|R=1|SN=%s|RN=%s|NEW=%s|SHAPE=1|TREE=%s|C2S=%s|S2C=%s", c01tHexNames(sn), c01tHexNames(rn),
-		c01tHexNames(created), c01tListing(dest), cs, sc) + "|ORDER=1"
+		c01tHexNames(created), c01tListing(dest), cs, sc) + "|ORDER=1|SPEC=" + c01tHexNames(replies) + ";" + c01tHexNames(replied) + ";1"
 	tc.args = []string{
 		fmt.Sprintf("%d:%s:%s:%s:%d:%s", g.Protocol, c01tB(g.Binary), c01tB(g.Directory), c01tB(g.Overwrite), g.Compress, up),
 		tableArg(g.pairs), hx([]byte("d")), c01tFsArg(pre), fmt.Sprint(c01tDflt), strings.Join(entArgs, ","), tags,
@@ -1442,6 +1444,7 @@ func genTransferTie(c *ctx) {
 				case 3:
 					tc.bigKind = 0
 					tc.cfg.bufsize = "1k"
+					tc.cfg.binary = true // fewer frames than base64; even so the extracted (not tail-recursive) list functions need more than 8 MiB of stack: bin/check lifts the limit for the driver
 				}
 			}
 			nBig++
